@@ -176,7 +176,14 @@ pub fn class_stmt(g: &mut Gen, out: &mut Vec<Stmt>) {
                     let (sn, sa, _) = cands[g.rd.below(cands.len())].clone();
                     let args: Vec<Expr> = (0..sa).map(|q| Expr::Num(q as f64 + 2.0)).collect();
                     g.label_pub("super_method_call");
-                    let call = if g.rd.chance(1, 4) {
+                    if g.rd.chance(1, 6) {
+                        // a field on the receiver named like the method: `super.m` still means
+                        // the superclass's method, called or taken as a value
+                        g.label_pub("super_with_same_named_field");
+                        let v = if g.rd.flag() { g.lambda_pub(sa) } else { Expr::Num(g.rd.below(50) as f64) };
+                        body.push(Stmt::expr(Expr::assign(Target::Prop(Expr::SelfE, sn.clone()), v)));
+                    }
+                    let call = if g.rd.chance(1, 3) {
                         // bound super method, called later
                         Expr::call(Expr::paren(Expr::SuperGet(sn, ln())), args)
                     } else {
@@ -343,7 +350,28 @@ pub fn throw_stmt(g: &mut Gen, out: &mut Vec<Stmt>) {
         return;
     }
     g.label_pub("throw");
-    let v = match g.rd.below(6) {
+    let v = match g.rd.below(8) {
+        6 | 7 if g.prof().user_errors => {
+            // an instance of a user-defined error class derived from a core error class (or from
+            // another user-defined one): handlers and the uncaught report both see that class
+            g.label_pub("throw_user_error");
+            let name = if g.user_errors.len() >= 3 || (!g.user_errors.is_empty() && g.rd.flag()) {
+                g.user_errors[g.rd.below(g.user_errors.len())].0.clone()
+            } else {
+                let sup = if !g.user_errors.is_empty() && g.rd.chance(1, 3) {
+                    g.user_errors[g.rd.below(g.user_errors.len())].0.clone()
+                } else {
+                    g.rd
+                        .pick_str(&["Error", "ValueError", "TypeError", "IndexError", "RuntimeError", "AttributeError", "NameError", "ImportError"])
+                        .to_string()
+                };
+                let name = format!("UErr{}", g.user_errors.len());
+                g.user_errors.push((name.clone(), sup));
+                name
+            };
+            Expr::invoke(Expr::var(&name), "new", vec![Expr::str("user context")])
+        }
+        6 | 7 => Expr::str("boom"),
         0 => Expr::str("boom"),
         1 => Expr::Num(g.rd.below(9) as f64),
         2 | 3 => Expr::invoke(Expr::var("Error"), "new", vec![Expr::str("bad")]),
@@ -359,7 +387,106 @@ pub fn throw_stmt(g: &mut Gen, out: &mut Vec<Stmt>) {
     }
 }
 
+/// A finally block (entered normally or by an exception) that calls a try-free helper which
+/// creates, calls and resumes fibers: the exception in flight must carry on afterwards.
+fn finally_fiber(g: &mut Gen, out: &mut Vec<Stmt>) {
+    g.label_pub("finally_calls_fiber");
+    let v = |x: &str| Expr::var(x);
+    let n = |x: f64| Expr::Num(x);
+    let yld = |a: Expr| Expr::invoke(Expr::var("Fiber"), "yield", vec![a]);
+    let helper = g.fresh_pub("rep");
+    let two_step = g.rd.flag();
+    let mut fb = vec![Stmt::print(Expr::VecLit(vec![Expr::str("fiber"), v("q")]))];
+    if two_step {
+        fb.push(Stmt::var("y", Some(yld(Expr::bin(BinOp::Add, v("q"), n(1.0))))));
+        fb.push(Stmt::print(v("y")));
+    }
+    fb.push(Stmt::new(StmtKind::Return(Some(Expr::bin(BinOp::Add, v("q"), n(2.0))))));
+    let l = Expr::Lambda(Rc::new(FnDef {
+        name: RefCell::new(g.next_lambda_name()),
+        params: vec!["q".into()],
+        body: Body::Block(fb),
+        kind: FnKind::Lambda,
+    }));
+    let mut hb = vec![
+        Stmt::var("lg", Some(Expr::invoke(v("Fiber"), "new", vec![l]))),
+        Stmt::var("r", Some(Expr::invoke(v("lg"), "call", vec![v("m")]))),
+    ];
+    if two_step {
+        hb.push(Stmt::expr(Expr::assign_var("r", Expr::VecLit(vec![v("r"), Expr::invoke(v("lg"), "call", vec![Expr::str("again")])]))));
+    }
+    hb.push(Stmt::new(StmtKind::Return(Some(v("r")))));
+    out.push(Stmt::new(StmtKind::Fn(fdef(&helper, FnKind::Function, vec!["m".into()], hb))));
+    g.declare_pub(&helper, Kind::Fn(1), false);
+    // a fiber created and started outside, resumed inside the finally block
+    let pre = if g.rd.flag() {
+        let fbv = g.fresh_pub(if g.at_global_pub() { "g" } else { "v" });
+        let l2 = Expr::Lambda(Rc::new(FnDef {
+            name: RefCell::new(g.next_lambda_name()),
+            params: vec![],
+            body: Body::Block(vec![
+                Stmt::var("a", Some(yld(Expr::str("first")))),
+                Stmt::var("b", Some(yld(Expr::VecLit(vec![v("a")])))),
+                Stmt::new(StmtKind::Return(Some(Expr::VecLit(vec![v("a"), v("b")])))),
+            ]),
+            kind: FnKind::Lambda,
+        }));
+        out.push(Stmt::var(&fbv, Some(Expr::invoke(v("Fiber"), "new", vec![l2]))));
+        out.push(Stmt::print(Expr::invoke(v(&fbv), "call", vec![])));
+        Some(fbv)
+    } else {
+        None
+    };
+    let thrower: Stmt = match g.rd.below(4) {
+        0 => Stmt::print(Expr::str("nothing thrown")),
+        1 => Stmt::new(StmtKind::Throw(Expr::str("pending"))),
+        2 => Stmt::expr(Expr::bin(BinOp::Add, Expr::Nil, n(1.0))),
+        _ => Stmt::expr(Expr::invoke(Expr::VecLit(vec![]), "pop", vec![])),
+    };
+    let mut fin = vec![Stmt::print(Expr::callv(&helper, vec![n(g.rd.below(5) as f64)]))];
+    if let Some(fbv) = &pre {
+        fin.push(Stmt::print(Expr::invoke(v(fbv), "call", vec![Expr::str("in finally")])));
+    }
+    if g.rd.flag() {
+        fin.push(Stmt::print(Expr::callv(&helper, vec![n(7.0)])));
+    }
+    let inner = Stmt::new(StmtKind::Try(vec![Stmt::print(Expr::str("body")), thrower], None, Some(fin)));
+    let e = g.fresh_pub("e");
+    let mut stmts = vec![Stmt::new(StmtKind::Try(
+        vec![inner, Stmt::print(Expr::str("after inner"))],
+        Some((e.clone(), vec![Stmt::print(Expr::VecLit(vec![Expr::str("caught"), Expr::callv("type", vec![v(&e)])]))])),
+        None,
+    ))];
+    if let Some(fbv) = &pre {
+        stmts.push(Stmt::print(Expr::invoke(v(fbv), "has_finished", vec![])));
+    }
+    if g.rd.chance(1, 3) {
+        // the same from inside a fiber whose own try statement spans the call
+        let l3 = Expr::Lambda(Rc::new(FnDef {
+            name: RefCell::new(g.next_lambda_name()),
+            params: vec![],
+            body: Body::Block({
+                let mut b = stmts;
+                b.push(Stmt::var("got", Some(yld(Expr::str("worker yielded")))));
+                b.push(Stmt::new(StmtKind::Return(Some(Expr::VecLit(vec![Expr::str("worker done"), v("got")])))));
+                b
+            }),
+            kind: FnKind::Lambda,
+        }));
+        let w = g.fresh_pub(if g.at_global_pub() { "g" } else { "v" });
+        out.push(Stmt::var(&w, Some(Expr::invoke(v("Fiber"), "new", vec![l3]))));
+        out.push(Stmt::print(Expr::invoke(v(&w), "call", vec![])));
+        out.push(Stmt::print(Expr::invoke(v(&w), "call", vec![Expr::str("V")])));
+    } else {
+        out.extend(stmts);
+    }
+}
+
 pub fn try_stmt(g: &mut Gen, out: &mut Vec<Stmt>) {
+    if !g.in_finally_pub() && g.rd.chance(1, 10) {
+        finally_fiber(g, out);
+        return;
+    }
     g.label_pub("try");
     let shape = g.rd.below(6);
     let (has_catch, has_finally) = match shape {
@@ -773,7 +900,11 @@ pub fn iter_template(g: &mut Gen, out: &mut Vec<Stmt>) {
                 fdef("new", FnKind::Init, vec!["n".into()], vec![setf("i", n(0.0)), setf("n", v("n"))]),
                 fdef("next", FnKind::Method, vec![], next_body),
             ];
-            if !derive_iter || g.rd.flag() {
+            let rewinds = g.rd.chance(1, 3);
+            if rewinds {
+                // iter() rewinds: every loop and every adapter chain starts from the top
+                methods.push(fdef("iter", FnKind::Method, vec![], vec![setf("i", n(0.0)), ret(Expr::SelfE)]));
+            } else if !derive_iter || g.rd.flag() {
                 methods.push(fdef("iter", FnKind::Method, vec![], vec![ret(Expr::SelfE)]));
             }
             out.push(Stmt::new(StmtKind::Class(Rc::new(ClassDef {
@@ -801,6 +932,36 @@ pub fn iter_template(g: &mut Gen, out: &mut Vec<Stmt>) {
                 let gd = g.guard_begin_pub();
                 let s = g.guard_end_pub(gd, Stmt::print(Expr::invoke(mk(), "reduce", vec![f2, n(0.0)])));
                 out.push(s);
+            }
+            if derive_iter && g.rd.chance(1, 2) {
+                // one object used for several chains and a loop left half way
+                g.label_pub("user_iter_reused");
+                let o = g.fresh_pub("o");
+                out.push(Stmt::var(&o, Some(Expr::invoke(v(&k), "new", vec![n(count + 2.0)]))));
+                let x2 = g.fresh_pub("x");
+                let mut uses: Vec<Stmt> = Vec::new();
+                for _ in 0..(2 + g.rd.below(3)) {
+                    let f = g.lambda_pub(1);
+                    uses.push(match g.rd.below(6) {
+                        0 => Stmt::print(Expr::invoke(Expr::invoke(v(&o), "map", vec![f]), "collect", vec![])),
+                        1 | 2 => Stmt::print(Expr::invoke(Expr::invoke(v(&o), "filter", vec![f]), "collect", vec![])),
+                        3 => Stmt::print(Expr::invoke(v(&o), "collect", vec![])),
+                        4 => Stmt::new(StmtKind::For(
+                            x2.clone(),
+                            v(&o),
+                            vec![Stmt::print(v(&x2)), Stmt::new(StmtKind::If(Expr::bin(BinOp::Ge, v(&x2), n(20.0)), vec![Stmt::new(StmtKind::Break)], None))],
+                        )),
+                        _ => {
+                            let f2 = g.lambda_pub(2);
+                            Stmt::print(Expr::invoke(Expr::invoke(v(&o), "filter", vec![f]), "reduce", vec![f2, n(0.0)]))
+                        }
+                    });
+                }
+                for u in uses {
+                    let gd = g.guard_begin_pub();
+                    let u = g.guard_end_pub(gd, u);
+                    out.push(u);
+                }
             }
             // a `next` stored in a field takes precedence over the method
             if g.rd.chance(1, 3) {
@@ -851,9 +1012,10 @@ pub fn iter_template(g: &mut Gen, out: &mut Vec<Stmt>) {
                 ],
                 attr_line: Cell::new(0),
             }))));
+            let bag_derives = g.rd.flag();
             out.push(Stmt::new(StmtKind::Class(Rc::new(ClassDef {
                 name: k.clone(),
-                superclass: None,
+                superclass: if bag_derives { Some("Iter".into()) } else { None },
                 default_ctor: None,
                 methods: vec![
                     fdef("new", FnKind::Init, vec!["items".into()], vec![setf("items", v("items"))]),
@@ -873,6 +1035,25 @@ pub fn iter_template(g: &mut Gen, out: &mut Vec<Stmt>) {
             ));
             let s = g.guard_end_pub(gd, s);
             out.push(s);
+            if bag_derives {
+                // the container has no `next` of its own: the inherited adapters must go through iter()
+                g.label_pub("container_adapters");
+                for _ in 0..(1 + g.rd.below(3)) {
+                    let f = g.lambda_pub(1);
+                    let e = match g.rd.below(5) {
+                        0 => Expr::invoke(Expr::invoke(v(&b), "map", vec![f]), "collect", vec![]),
+                        1 | 2 => Expr::invoke(Expr::invoke(v(&b), "filter", vec![f]), "collect", vec![]),
+                        3 => Expr::invoke(v(&b), "collect", vec![]),
+                        _ => {
+                            let f2 = g.lambda_pub(2);
+                            Expr::invoke(v(&b), "reduce", vec![f2, n(0.0)])
+                        }
+                    };
+                    let gd = g.guard_begin_pub();
+                    let s = g.guard_end_pub(gd, Stmt::print(e));
+                    out.push(s);
+                }
+            }
         }
         3 => {
             // two loops sharing one iterator object: the inner loop consumes from the outer's stream
